@@ -111,9 +111,9 @@ func chaosMode(r *common.Run, sk *sink) {
 	if r.Mode == "replay" {
 		r.SetRule("each case = one lifetime of a 3- or 5-host cluster of real NodeHosts as in the chaos stage, tuned for C08: snapshots every 8-25 entries with a compaction overhead of 1-3 entries so that lagging, isolated, crashed and newly added (non-voting) replicas are caught up by snapshot (file transfer for plain/concurrent state machines, live stream for on-disk ones), PrepareSnapshot dwelling 0-3 ms; after healing and again after a power loss of all hosts the state of every replica is compared with the replay of the whole committed log (union of the apply records of all state machine incarnations) up to the last entry that replica holds; non-trivial = at least one RecoverFromSnapshot happened and the replicas converged; distinct by hash of the recorded history. Then catch-up cases: 3 replicas (+1 non-voting replica added half way) under continuous writes, 8-13 cycles of cutting off or crashing a follower until the leader compacted the log it misses, healing, and catching it up by snapshot while entries keep being applied; same oracle")
 	}
-	n := r.Pick(8, 160)
+	n := r.Pick(8, 96)
 	if r.Prop == "C04" {
-		n = r.Pick(8, 200)
+		n = r.Pick(8, 96)
 	}
 	for _, c := range r.MyCases(n) {
 		rng := r.Rand("chaos", c)
